@@ -1514,12 +1514,13 @@ func main() {
 		replay(r)
 		r.Finish()
 	}
-	depth := map[string]int{"mock": 3, "disk": 2, "memory": 2}
+	// quick: all histories of depth <= 2 (the second identical call is where sharing shows); depth 3 is thorough only
+	depth := map[string]int{"mock": 2, "disk": 2, "memory": 2}
 	if r.Thorough() {
 		depth = map[string]int{"mock": 3, "disk": 3, "memory": 3}
 		r.SetDeadline(9 * time.Minute)
 	} else {
-		r.SetDeadline(35 * time.Second)
+		r.SetDeadline(60 * time.Second)
 	}
 	kinds := []string{"mock", "disk", "memory"}
 	for d := 1; d <= 3; d++ {
